@@ -1,15 +1,21 @@
 """C06 Responses depend on the byte stream, not on how TCP segmented it.
-Decides exactly one clause (C06-a): the byte count returned by the first read bounds what is parsed.
+Decides two clauses: (C06-a) the byte count returned by the first read bounds what is parsed; (C06-b) every payload
+read_payload hands out has exactly the announced length, whatever else the segment carried.
 Everything else in C06 quantifies over schedules of an external actor and is not visible in code shape."""
+import re
+
 from . import C02
+from .lib import decision, paths
 
 CONFIGS_QUICK = ["A"]
 CONFIGS_THOROUGH = ["A", "R", "ASYNCSTD", "SMOL", "NIO", "GLOMMIO"]
 TECHNIQUE = "def-use of the read count in the built MIR of Request::read (USED-RESULT)"
-LEVEL_TEXT = ("Decides one clause, C06-a: in Request::read the Ok(n) payload of stream.read(&mut buf) flows into the extent of what is parsed "
+LEVEL_TEXT = ("Decides two clauses. C06-b: every value Request::read_payload returns is sized by its `size` parameter (the Content-Length), in each of its three "
+              "cases -- body complete in the head's segment, body partly there, body not there -- so bytes behind the announced length (a coalesced next "
+              "request) are never attributed to this request's body. C06-a: in Request::read the Ok(n) payload of stream.read(&mut buf) flows into the extent of what is parsed "
               "(not only into the `== 0` test), and read_payload does not decide 'nothing received' from the value of a buffer byte. This is a necessary "
               "condition of segmentation independence for arbitrary byte content (without n a received 0 byte is indistinguishable from padding). "
-              "Decides this clause only: heads split over several reads and several requests coalesced in one read are not decided.")
+              "Decides these clauses only: heads split over several reads and several requests coalesced in one read are not decided.")
 
 
 def run(ck, progs):
@@ -18,6 +24,7 @@ def run(ck, progs):
     for cfg, prog in progs.items():
         ck.config = cfg
         ck.guard("C06-a USED-RESULT", lambda: c06a(ck, prog))
+        ck.guard("C06-b PAIR payload extent", lambda: c06b(ck, prog))
     ck.config = None
 
 
@@ -47,3 +54,55 @@ def c06a(ck, prog):
     ok = not bad
     ck.ob("C06-a USED-RESULT", "no-byte-sentinel", ok, bad[0] if bad else f.loc(None),
           "" if ok else "read_payload branches on the value of a received byte: 'not yet received' is guessed from content", how="read_payload branches only on lengths")
+
+
+def c06b(ck, prog):
+    R = "C06-b PAIR payload extent"
+    par = prog.one(r"^ohkami::request::Request::read_payload$")
+    f = prog.coroutine_body(par.key)
+    # the length parameter: the usize parameter of read_payload; the buffer parameter: the &[u8] one
+    size_args = ["arg%d" % i for i in range(1, par.argc + 1) if par.locals[i] == "usize"]
+    if len(size_args) != 1:
+        ck.ob(R, "anchor", False, par.loc(None), "read_payload no longer has exactly one usize parameter (the announced length)")
+        return
+    size_arg = size_args[0]
+
+    def is_size(g, op):
+        st = g.origin(op)
+        if not st:
+            return False
+        if st[-1][0] == "arg":
+            return paths.capture_desc(prog, g, op) == size_arg
+        return False
+    n = 0
+    for bb, kind, payload in paths.ret_sites(f):
+        if kind != "Ok":
+            continue
+        n += 1
+        d = decision.describe_deep(f, payload[2][0], 8)
+        rc = paths.root_call(f, payload[2][0], through=r"(::into_boxed_slice|Into<.*>::into|::into)$")
+        ok, how = False, d[:70]
+        # CowSlice::Ref(Slice::new_unchecked(ptr, size)) / CowSlice::Own(vec![0; size].into_boxed_slice())
+        inner = f.origin(payload[2][0])
+        agg = inner[-1][1] if inner and inner[-1][0] == "agg" else None
+        if agg is not None and agg[2]:
+            c = paths.root_call(f, agg[2][0], through=r"(::into_boxed_slice|Into<.*>::into)$")
+            if c is not None and c.name == "new_unchecked" and "Slice" in (c.callee or "") and len(c.args) == 2:
+                ok = is_size(f, c.args[1])
+                how = "Ref(Slice::new_unchecked(ptr, %s))" % decision.describe_deep(f, c.args[1], 2)
+            elif c is not None and c.name == "from_elem" and len(c.args) == 2:
+                ok = is_size(f, c.args[1])
+                how = "Own(vec![0; %s])" % decision.describe_deep(f, c.args[1], 2)
+            elif c is not None and c.name == "from_bytes" and c.args:
+                # Slice::from_bytes(&buf[..size])
+                ic = paths.root_call(f, c.args[0], through=r"$^")
+                rng = f.origin(ic.args[1]) if ic is not None and ic.name in ("index", "get_unchecked", "get") and len(ic.args) > 1 else None
+                if rng and rng[-1][0] == "agg" and rng[-1][1][1].get("adt", "").endswith("RangeTo") and rng[-1][1][2]:
+                    ok = is_size(f, rng[-1][1][2][0])
+                how = "Ref(Slice::from_bytes(%s))" % decision.describe_deep(f, c.args[0], 3)
+            elif c is not None:
+                how = "%s(%s)" % (c.name, ", ".join(decision.describe_deep(f, a, 2) for a in c.args))
+        ck.ob(R, "case%d" % n, ok, f.loc(None),
+              "" if ok else "read_payload returns a payload built as %s: its extent is not the announced length, so whatever else arrived in the same segment (the next pipelined request, a trailing CRLF) becomes part of this request's body" % how,
+              how="payload = %s" % how)
+    ck.floor(R, "payload cases", n, 3)
